@@ -91,6 +91,14 @@ def show_memo(memo):
     return "S{%s} V{%s}" % (s, v)
 
 
+class LibDtype:
+    def __init__(self, name):
+        self.name_ = name
+
+    def __repr__(self):
+        return "lib." + self.name_
+
+
 class Duck:
     def __init__(self, shape, dtype):
         self.shape = tuple(shape)
@@ -110,6 +118,10 @@ def make_value(step):
     if kind == "duck":
         from typing import Any
         return Any, Duck(shape, dt)
+    if kind == "ducktorch":
+        # an array-like whose dtype is an OBJECT printed like `torch.float32` (the "everyone else" branch of the dtype-name extraction)
+        from typing import Any
+        return Any, Duck(shape, LibDtype(dt))
     if kind == "notarray":
         return np.ndarray, Duck(shape, dt)       # right attributes, wrong type
     if kind == "noattrs":
